@@ -375,6 +375,7 @@ func runCheck(args []string) int {
 	var knownSeen []string
 	violations := 0
 	replayDir := filepath.Join(verif, "out", "replay", pd.ID)
+	os.RemoveAll(replayDir)
 	os.MkdirAll(replayDir, 0o755)
 	for _, o := range failed {
 		if k := isKnown(o.Name); k != nil {
@@ -415,6 +416,19 @@ func runCheck(args []string) int {
 			}
 		}
 	}
+	for _, a := range P.axioms {
+		if a.Def {
+			for _, r := range results {
+				if r.Spec != nil {
+					for _, u := range r.Spec.Uses {
+						if u == a.Name {
+							trusted = append(trusted, "definitional axiom (recursive definition of a ghost function, conservative, not machine-checked): "+a.Name)
+						}
+					}
+				}
+			}
+		}
+	}
 	trusted = append(trusted,
 		"go/types + go/ssa (x/tools v0.29.0, NaiveForm) represent /repo faithfully",
 		"gvc's SSA->SMT translation (ints mathematical with explicit wrap for unsigned, slices as (arr,off,len,cap), heap as per-field arrays)",
@@ -445,9 +459,13 @@ func runCheck(args []string) int {
 		},
 		Assumptions: uniq(append(notes, trusted...)),
 	}
-	os.MkdirAll(filepath.Join(verif, "evidence"), 0o755)
+	evDir := filepath.Join(verif, "evidence")
+	if d := os.Getenv("GVC_EVIDENCE_DIR"); d != "" {
+		evDir = d // used when a check is pointed at a deliberately broken tree (seeded-change tests)
+	}
+	os.MkdirAll(evDir, 0o755)
 	eb, _ := json.MarshalIndent(ev, "", " ")
-	if err := os.WriteFile(filepath.Join(verif, "evidence", pd.ID+".json"), eb, 0o644); err != nil {
+	if err := os.WriteFile(filepath.Join(evDir, pd.ID+".json"), eb, 0o644); err != nil {
 		fmt.Println("BROKEN-MACHINERY cannot write evidence:", err)
 		return 2
 	}
@@ -586,7 +604,7 @@ func (P *Program) axiomObligations(results []*FuncResult) []*FuncResult {
 	var out []*FuncResult
 	for _, name := range sortedKeys(used) {
 		for _, a := range P.axioms {
-			if a.Name != name {
+			if a.Name != name || a.Def {
 				continue
 			}
 			init := P.inits[a.Pkg]
